@@ -38,7 +38,7 @@ ASSUMPTIONS = [
     "verovio is not installed: the lxml branch of the MEI reader is the one that runs",
 ]
 COMPONENTS = {"real": ["partitura.io.importkern", "partitura.io.exportkern", "partitura.io.importmei", "partitura.io.exportmei", "partitura.io.load_score", "numpy loadtxt/genfromtxt/savetxt", "lxml"], "stub": ["raw file layer (SimFS)", "HTTP client (fake urlopen)", "independent kern and MEI encoders (model/ref_kern.py, model/ref_mei.py)"]}
-PROBES = ("kern_same_part", "mei_dur_ppq", "kern_multi_spine", "kern_ties", "kern_tuplets", "kern_grace", "mei_attr_defs", "mei_child_defs", "mei_no_ppq", "mei_layers", "mei_tuplets", "upper_case_extension", "url_route", "read_fault", "write_fault", "export_roundtrip_checked")
+PROBES = ("kern_spine_split_fallback_reader", "kern_same_part", "mei_dur_ppq", "kern_multi_spine", "kern_ties", "kern_tuplets", "kern_grace", "mei_attr_defs", "mei_child_defs", "mei_no_ppq", "mei_layers", "mei_tuplets", "upper_case_extension", "url_route", "read_fault", "write_fault", "export_roundtrip_checked")
 
 
 # ----------------------------------------------------------------------------
@@ -71,7 +71,7 @@ def generate(seed, tier, cfg):
         "workload": asc,
         "cfg": cfg,
         "faults": faults,
-        "knobs": {"rich": rich, "ext": ext, "route": route, "chunk": k.choice((0, 0, 7, 64)), "style": {"attr_defs": k.random() < 0.5, "beams": False, "ppq": k.random() < 0.5, "mrest": True, "durppq": k.random() < 0.5, "same_part": k.random() < 0.7}},
+        "knobs": {"rich": rich, "ext": ext, "route": route, "chunk": k.choice((0, 0, 7, 64)), "style": {"attr_defs": k.random() < 0.5, "beams": False, "ppq": k.random() < 0.5, "mrest": True, "durppq": k.random() < 0.5, "same_part": k.random() < 0.7, "split": [k.randrange(0, 8), k.randrange(0, 8)] if k.random() < 0.35 else None}},
     }
 
 
@@ -182,6 +182,7 @@ def execute(case, keep_log=False):
             d = [kk for kk in g0 if g0[kk] != g1.get(kk)]
             res.violation("O5-globals", cfg, "process-global state changed: %s" % d, site=",".join(d))
             G.restore(g0)
+    res.state(cfg, kn["route"], kn["ext"].lower(), tuple(sorted(fs.fired.items())), tuple(sorted((v["oracle"], v["site"]) for v in res.violations)))
     res.sigadd(cfg, tuple(sorted(shape.items())), kn["ext"], kn["route"], tuple(sorted(kn["style"].items())), tuple(sorted(fs.fired.items())))
     res.nontrivial = bool(nontrivial)
     res.log.add("world", "end", None)
@@ -191,7 +192,9 @@ def execute(case, keep_log=False):
 def run_in(res, fs, asc, kn, fmt, path, faults, shape):
     if fmt == "kern":
         same_part = bool(kn["style"].get("same_part")) and len(asc["parts"]) == 1
-        text, exp = ref_kern.encode(asc, same_part=same_part)
+        text, exp = ref_kern.encode(asc, same_part=same_part, split=kn["style"].get("split"))
+        if text and exp.get("split"):
+            res.probe("kern_spine_split_fallback_reader")
         if same_part and text and len(exp["spines"]) > 1:
             res.probe("kern_same_part")
         data = text.encode("utf-8") if text else None
